@@ -222,7 +222,7 @@ def transformations(name, tier):
     os_ = orders(npar, tier)
     if npar > 3:
         os_ = os_[:6] if tier != "quick" else os_
-    units = [1.0, 1e-3, 7.0, 1e3, 1e-5, 1e5]
+    units = [1.0, 1e-3, 7.0, 1e3, 1e-5, 1e5, 1e20]  # 1e20: products of N variances leave the floating-point range, sums of logarithms do not
     out = []
     if tier == "quick":
         for pn, p in ps[1:]:
@@ -257,8 +257,8 @@ def jobs(tier, seed):
 
 def bound(tier, seed):
     if tier == "quick":
-        return "8 problems x 2 backends x {7 point permutations, all parameter orders, unit factors 1e-5 / 1e-3 / 7 / 1e3 / 1e5, 2 combined transformations}, each applied to the untransformed problem; valuation %d" % (seed % 3)
-    return "11 problems x 2 backends x full product of 14 point permutations x all parameter orders (<= 6) x unit factors {1, 1e-5, 1e-3, 7, 1e3, 1e5}; valuations 0,1,2"
+        return "8 problems x 2 backends x {7 point permutations, all parameter orders, unit factors 1e-5 / 1e-3 / 7 / 1e3 / 1e5 / 1e20 (iminuit), 2 combined transformations}, each applied to the untransformed problem; valuation %d" % (seed % 3)
+    return "11 problems x 2 backends x full product of 14 point permutations x all parameter orders (<= 6) x unit factors {1, 1e-5, 1e-3, 7, 1e3, 1e5, 1e20 (iminuit)}; valuations 0,1,2"
 
 
 def run_case(name, backend, v, perm, order, unit):
@@ -313,6 +313,9 @@ def run_job(spec):
         return run_multi_job(spec)
     res = JobResult()
     trs = [t for i, t in enumerate(transformations(name, tier)) if i % nshard == shard]
+    # the extreme unit is explored with iminuit only (the scipy backend's scale dependence is a known finding); 1e-20 is not generated
+    # at all: MINUIT's own step-size logic fails for parameters of that size (HESSE errors wrong), which is not kafe2's labelling
+    trs = [t for t in trs if not (backend == "scipy" and t[3] >= 1e19)]
     import inspect
 
     npar = len(inspect.signature(ref.MODELS[PROBLEMS[name]["model"]]).parameters) - 1
